@@ -396,6 +396,16 @@ func join(a, b context, node parse.Node, nodeName string) context {
 		return c
 	}
 
+	// After `<p {{if .C}}title {{end}}` a new attribute name starts in either case: the
+	// name and the white space of the branch do not stay open for what follows.
+	if a.state == stateAfterName && b.state == stateTag {
+		a.state, a.attr = stateTag, attr{}
+		return join(a, b, node, nodeName)
+	}
+	if a.state == stateTag && b.state == stateAfterName {
+		b.state, b.attr = stateTag, attr{}
+		return join(a, b, node, nodeName)
+	}
 	// Allow a nudged context to join with an unnudged one.
 	// This means that
 	//   <p {{if .C}}title{{end}}
